@@ -670,7 +670,9 @@ func (p *c16) projections(x *res, adapter string, ctx *runner.Ctx) {
 		}
 		x.r.Evals++
 	}
-	wellFormed := []string{"a", "a, l", "a.x, l[0]", "m.x", "l[0]", "l[0][1].x.y[2]", "  a ,\n\tl ", "a,l,m", "#p", "#p.#q, #p[1].#q", "a1b2, _under, X"}
+	wellFormed := []string{"a", "a, l", "a.x, l[0]", "m.x", "l[0]", "l[0][1].x.y[2]", "  a ,\n\tl ", "a,l,m", "#p", "#p.#q, #p[1].#q", "a1b2, _under, X",
+		// names that only BEGIN like a reserved word
+		"user_id", "status_code, name_first", "at_created.x", "count_1[0], size_", "namex, statusx, valuex", "a, user_id"}
 	malformed := []string{"a,, l", "a l", ", a", "a,", "a.", "a[", "a[0", "a[x]", "a[]", "a[0]]", ":v", "a, :v", "a.:v", "a.1", "1", "a..x", "a.[0]", "(a)", "a = l", "a, size(l)", "a AND l", "#", "a#b", "a:b", "a, #", "a;l", "*"}
 	names := map[string]string{"#p": "m", "#q": "x"}
 	for i, proj := range append(append([]string{}, wellFormed...), malformed...) {
